@@ -376,7 +376,7 @@ SUBCHECKS = [
     Sub('plane', gen_plane, ev_plane, chunk=2, floor=200, guard=True, envs=3),
     Sub('vaconv', gen_va, ev_va, chunk=4, floor=30, guard=True, envs=2),
     Sub('atmos', gen_atm, ev_atm, chunk=1, floor=100, guard=True, envs=2),
-    Sub('threads', _tg, _te, chunk=1, floor=3, poison=False, fresh=True, timeout=3600),
+    Sub('threads', _tg, _te, chunk=1, floor=3, poison=False, fresh=True, timeout=7200),
     Sub('callforms', *_cf.make('C19', 'survey'), chunk=1, floor=1, guard=True),
     Sub('interpreter', *_ip.make('C19', 'survey'), chunk=1, floor=5, poison=False),
 ]
